@@ -55,6 +55,22 @@ pub fn conformance() -> Vec<Ill> {
       );
     }
   }
+  // one generic interface reached at two different instantiations: the method cannot have both
+  // types, whatever the order and the depth of the inheritance paths
+  let diamond_prelude = "interface Source<T> { method get(): T }\ninterface Flag : Source<bool> {}\ninterface Mid<T> : Source<T> {}\ninterface DeepFlag : Mid<bool> {}\n";
+  for (what, supers) in [
+    ("direct then inherited", "Source<int>, Flag"),
+    ("inherited then direct", "Flag, Source<int>"),
+    ("both direct", "Source<int>, Source<bool>"),
+    ("direct then two levels up", "Source<int>, DeepFlag"),
+    ("two levels up then direct", "DeepFlag, Source<int>"),
+    ("through two generic paths", "Mid<int>, Mid<bool>"),
+  ] {
+    push(
+      format!("class implements one generic interface at two instantiations ({what})"),
+      format!("{diamond_prelude}class Seven : {supers} {{\n  method get(): int = 7\n}}\nclass Main {{ function main(): unit = {{ }} }}\n"),
+    );
+  }
   out
 }
 
